@@ -490,6 +490,11 @@ func ctrlConds(b *ssa.BasicBlock) []ctrlCond {
 	fn := b.Parent()
 	var out []ctrlCond
 	isB := func(i ssa.Instruction) bool { return i.Block() == b }
+	if b != fn.Blocks[0] {
+		if reach, _ := pathExists(entry(fn), isB, nil, nil); !reach {
+			return nil // only reachable through panic recovery
+		}
+	}
 	for _, blk := range fn.Blocks {
 		if len(blk.Instrs) == 0 {
 			continue
@@ -657,6 +662,13 @@ func (t *termer) t(v ssa.Value, d int) string {
 	case *ssa.MakeClosure:
 		return "closure:" + short(fnName(v.Fn.(*ssa.Function)))
 	case *ssa.Slice:
+		if al, ok := v.X.(*ssa.Alloc); ok && (al.Comment == "varargs" || al.Comment == "slicelit") && v.Low == nil && v.High == nil {
+			var es []string
+			for _, e := range variadicElems(v) {
+				es = append(es, t.t(e, d+1))
+			}
+			return "[" + strings.Join(es, ", ") + "]"
+		}
 		s := t.t(v.X, d+1) + "["
 		if v.Low != nil {
 			s += t.t(v.Low, d+1)
@@ -975,7 +987,7 @@ func returnOutcomes(fn *ssa.Function) []retOutcome {
 			continue
 		}
 		ret, ok := b.Instrs[len(b.Instrs)-1].(*ssa.Return)
-		if !ok {
+		if !ok || b == fn.Recover {
 			continue
 		}
 		if errIdx < 0 || errIdx >= len(ret.Results) {
